@@ -787,6 +787,21 @@ fn run_op(ctx: &mut Ctx, op: &str) -> String {
                         },
                     }
                 }
+                "IR" => {
+                    // RR::new with f[4] bytes of data, then insert_rr: the public way to hand in a record of any size
+                    let sec = sec_of(f[1]);
+                    let n = unhex(f[2]);
+                    let t: u16 = f[3].parse().unwrap();
+                    let rdlen: usize = f[4].parse().unwrap();
+                    let hdr = r#gen::RRHeader { name: n, ttl: 1, class: Class::IN, rr_type: type_of(t) };
+                    match r#gen::RR::new(hdr, &vec![0x61u8; rdlen]) {
+                        Err(e) => err(&e),
+                        Ok(rr) => match pp.insert_rr(sec, rr) {
+                            Ok(()) => "OK".to_string(),
+                            Err(e) => err(&e),
+                        },
+                    }
+                }
                 "rn" => {
                     let t = unhex(f[1]);
                     let s = unhex(f[2]);
